@@ -206,6 +206,7 @@ def explore(ctx):
         if not same(back, plainify(proj)):
             ctx.violation('read back by a plain YAML parser the dump is {!r}, the projection is {!r}'.format(
                 back, proj)[:400], dict(desc, key='projection:' + repr(v)[:50], text=text[:600]))
+    shared_objects(ctx, yaml, yatiml)
     answers = ctx.driver(reqs)
     for a, w, d in zip(answers, wants, descs):
         ctx.count('correspondence_cases')
@@ -223,6 +224,90 @@ def plainify(p):
     if isinstance(p, list):
         return [plainify(x) for x in p]
     return p
+
+
+SHARED_SRC = '''
+import yatiml
+from typing import Dict, List
+from collections import UserString
+
+class Postcode:
+    def __init__(self, digits: int, letters: str) -> None:
+        self.digits = digits
+        self.letters = letters
+    @classmethod
+    def _yatiml_recognize(cls, node: yatiml.UnknownNode) -> None:
+        node.require_scalar(str)
+    @classmethod
+    def _yatiml_savorize(cls, node: yatiml.Node) -> None:
+        text = str(node.get_value())
+        node.make_mapping()
+        node.set_attribute('digits', int(text[:4]))
+        node.set_attribute('letters', text[5:])
+    @classmethod
+    def _yatiml_sweeten(cls, node: yatiml.Node) -> None:
+        node.set_value('{} {}'.format(node.get_attribute('digits').get_value(),
+                                      node.get_attribute('letters').get_value()))
+
+class Code(UserString):
+    @classmethod
+    def _yatiml_sweeten(cls, node: yatiml.Node) -> None:
+        node.set_value(str(node.get_value()).upper())
+
+class Renamed:
+    def __init__(self, a_b: int) -> None:
+        self.a_b = a_b
+    @classmethod
+    def _yatiml_sweeten(cls, node: yatiml.Node) -> None:
+        node.unders_to_dashes_in_keys()
+
+class Holder:
+    def __init__(self, first: Postcode, second: Postcode, codes: List[Code], more: Dict[str, Renamed]) -> None:
+        self.first = first
+        self.second = second
+        self.codes = codes
+        self.more = more
+'''
+
+
+def shared_objects(ctx, yaml, yatiml):
+    """the same object referenced twice is dumped like two equal objects (up to the anchor PyYAML writes):
+    classes whose sweeten hook replaces the node (a mapping turned into a scalar, a string rewritten)
+    or edits it in place"""
+    import copy
+    ns = {}
+    exec(SHARED_SRC, ns)
+    P, C, R, H = ns['Postcode'], ns['Code'], ns['Renamed'], ns['Holder']
+    dumps = yatiml.dumps_function(P, C, R, H)
+    p, c, r = P(1098, 'XG'), C('ab'), R(3)
+    values = [[p, p], {'x': p, 'y': p}, [c, c], [r, r], [[p], [p]], H(p, p, [c, c], {'k': r, 'l': r}),
+              [H(p, P(1, 'A'), [c], {}), p, c]]
+    for v in values:
+        try:
+            shared_text = dumps(v)
+            plain_text = dumps(copy.deepcopy(v))       # deepcopy keeps sharing: rebuild without it below
+            def unshare(x):
+                if isinstance(x, list):
+                    return [unshare(y) for y in x]
+                if isinstance(x, dict):
+                    return {k: unshare(y) for k, y in x.items()}
+                if isinstance(x, (P, R, H)):
+                    return type(x)(**{k: unshare(y) for k, y in vars(x).items()})
+                if isinstance(x, C):
+                    return C(str(x))
+                return x
+            plain_text = dumps(unshare(v))
+            a, b = yaml.safe_load(shared_text), yaml.safe_load(plain_text)
+        except Exception as e:  # noqa
+            ctx.violation('dumping a value with a shared sub-object raises {}: {}'.format(type(e).__name__, str(e)[:100]),
+                          dict(key='shared-raises', value=repr(v)[:200]))
+            continue
+        ctx.case(('shared-objects', shared_text), nontrivial=True)
+        ctx.count('shared_object_dumps')
+        if a != b:
+            ctx.violation('an object referenced twice is dumped differently the second time: {!r} (two equal objects '
+                          'give {!r})'.format(shared_text[:200], plain_text[:200]),
+                          dict(key='shared-sweeten', text=shared_text[:400], expected=plain_text[:400], classes=SHARED_SRC))
 
 
 def search(ctx, broken):
